@@ -102,10 +102,10 @@ func PredText(p ast.Pred) string {
 
 // Node is an expression tree.
 type Node struct {
-	Leaf  *ast.Term
-	Un    int // unary code, -1 if none
-	Bin   int // binary code, -1 if none
-	Kids  []*Node
+	Leaf *ast.Term
+	Un   int // unary code, -1 if none
+	Bin  int // binary code, -1 if none
+	Kids []*Node
 }
 
 // Tree rebuilds the tree of a well-formed postfix sequence (nil if malformed).
